@@ -180,6 +180,8 @@ def run(tier):
             tot["reorgs"] += d["summary"]["reorgs"]
         fut.result()
     c.add("traces_validated_against_impl", tot["templates"])
+    tot["dep_group_families_in_histories"] = sum(d["summary"].get("dep_groups", [0, 0, 0, 0])[2] for d in docs)
+    tot["templates_while_a_dep_group_family_is_pooled"] = sum(1 for d in docs for e in d["events"] if e["ev"] == "Template" and e["moment"] == "dep-group-family")
     c.set("templates", tot)
     if c.violations:                       # a violation outranks the vacuity guards (cut histories count fewer templates)
         return c.finish()
